@@ -481,6 +481,10 @@ pub fn corpus() -> Vec<Item> {
         };
         out.push(mk("vardct-72x40-small-transforms-cfl-hfmul", (72, 40), jxlw::jpeg::StreamOpts { block_cycle: vec![1, 2, 3, 12, 13, 14, 15, 16, 17, 0, 4, 6, 7], cfl: true, hf_mul_varied: true, no_ycbcr: true, ..Default::default() }));
         out.push(mk("vardct-264x72-mixed-2groups-lfsmooth-gab-epf", (264, 72), jxlw::jpeg::StreamOpts { block_cycle: vec![5, 8, 9, 10, 11, 18, 19, 20, 0, 4], lf_smoothing: true, filters: true, hf_mul_varied: true, ..Default::default() }));
+        // two LF groups (the image is wider / taller than 2048): Gabor + EPF, whose strength map is kept per LF group, varying
+        // HF multipliers and chroma-from-luma maps
+        out.push(mk("vardct-2056x8-2lfgroups-gab-epf", (2056, 8), jxlw::jpeg::StreamOpts { filters: true, hf_mul_varied: true, ..Default::default() }));
+        out.push(mk("vardct-16x2056-2lfgroups-epf1-cfl", (16, 2056), jxlw::jpeg::StreamOpts { filters: true, epf_iters: 1, cfl: true, no_ycbcr: true, ..Default::default() }));
         out.push(mk("vardct-40x24-lfsmooth-cfl", (40, 24), jxlw::jpeg::StreamOpts { lf_smoothing: true, cfl: true, ..Default::default() }));
     }
     // VarDCT colour with a Modular-coded alpha channel (8 and 12 bit), the second with Gabor + EPF
